@@ -161,6 +161,14 @@ class C17(HistoryProfile):
       cond = rng.choice([f, json.dumps({"text": f}), json.dumps({"text": f, "extra": [1]})])
       if to_tree(f) is None:
         cond = json.dumps({"text": f, "parsed": ["Const", 0]})
+      elif rng.random() < 0.35:
+        # config mode (a custom expression with its own parsed form), alone or next to a text
+        f2 = fill(rng.choice(TRIGGER_FORMULAS), t)
+        if to_tree(f2) is not None:
+          cd = {"config": {"customExpression": f2, "columnFilters": []}}
+          if rng.random() < 0.5:
+            cd["text"] = f
+          cond = json.dumps(cd)
       return {"k": "bundle", "ops": ["add_trigger"], "a": [
         ["AddRecord", "_grist_Triggers", None, {"tableRef": t.ref, "condition": cond,
                                                 "eventTypes": ["L", "add"], "enabled": True}]]}
@@ -242,11 +250,17 @@ class C17(HistoryProfile):
         cd = json.loads(cond)
       except ValueError:
         continue
-      if not isinstance(cd, dict) or "text" not in cd:
+      if not isinstance(cd, dict):
         continue
       t = dv.table_by_ref.get(rec.get("tableRef"))
-      out.append((("trig", rid), "trig", cd["text"], cd.get("parsed"),
-                  {"table": t.tableId if t else None, "attrs": {}}))
+      if "text" in cd:
+        out.append((("trig", rid), "trig", cd["text"], cd.get("parsed"),
+                    {"table": t.tableId if t else None, "attrs": {}}))
+      # config mode: a second predicate text next to (or instead of) the first
+      cfgd = cd.get("config")
+      if isinstance(cfgd, dict) and isinstance(cfgd.get("customExpression"), str) and cfgd["customExpression"]:
+        out.append((("trigcfg", rid), "trig", cfgd["customExpression"], cfgd.get("customExpressionParsed"),
+                    {"table": t.tableId if t else None, "attrs": {}}))
     return out, dv
 
   def check(self, sim, out, st):
